@@ -32,6 +32,7 @@ type vzOracles struct {
 
 	// the chain as the correct nodes finalized it (C03)
 	finalized          map[uint64]string
+	maxVoting          map[int][3]uint64          // node -> highest voting height/round seen in a view handed to gossip, and the incarnation that showed it
 	honestPH           map[string]bool            // hashes of proposed headers authored by correct validators (C07 completeness)
 	enterPHs           map[string]map[string]bool // node incarnation/h/r -> hashes of the proposed headers in the view the state machine entered the round with
 	committedByCorrect map[uint64]string // first hash a correct node recorded as committed, per height (H-NET)
@@ -589,12 +590,56 @@ func (o *vzOracles) onGossipUpdate(nd *vzNode, u tmelink.NetworkViewUpdate) {
 	}
 	if u.Voting != nil {
 		o.checkFetchThreshold(nd, u.Voting)
+		// C04: the voting position a node shows never moves backwards, not across a restart either
+		// (the kernel publishes a position only after it has persisted it)
+		if o.on["C04"] {
+			if o.maxVoting == nil {
+				o.maxVoting = map[int][3]uint64{}
+			}
+			cur := [3]uint64{u.Voting.Height, uint64(u.Voting.Round), uint64(nd.inc)}
+			if old, ok := o.maxVoting[nd.idx]; ok && (cur[0] < old[0] || (cur[0] == old[0] && cur[1] < old[1])) {
+				key := "voting-position-regressed/view"
+				if cur[2] != old[2] {
+					key = "voting-position-regressed/across-restart"
+				}
+				o.violate("C04", key, "%s publishes voting position %d/%d after it (incarnation %d) had published %d/%d", nd.ident(), cur[0], cur[1], old[2], old[0], old[1])
+			} else {
+				o.maxVoting[nd.idx] = cur
+			}
+		}
 	}
 	if u.NilVotedRound != nil {
 		o.checkViewContent(nd, "gossip-nilvoted", u.NilVotedRound)
 	}
 	if u.Committing != nil {
 		o.checkCommittingViewHasCertificate(nd, u.Committing)
+	}
+}
+
+// checkOwnVote (C10): a vote the restarted state machine hands to its mirror again (it was recorded in
+// the action store before the stop) must still be that vote: its sign content is the sign bytes of its
+// kind, height, round and target, and the signature verifies over it with the node's key. Otherwise
+// the mirror drops it and the persisted vote is not present again.
+func (o *vzOracles) checkOwnVote(nd *vzNode, kind string, h uint64, r uint32, target string, content, sig []byte) {
+	if !o.on["C10"] || nd.byz || nd.inc < 2 || o.w.s.Stopped() {
+		return
+	}
+	vt := tmconsensus.VoteTarget{Height: h, Round: r, BlockHash: target}
+	var want []byte
+	var err error
+	if kind == "prevote" {
+		want, err = tmconsensus.PrevoteSignBytes(vt, o.w.fx.SignatureScheme)
+	} else {
+		want, err = tmconsensus.PrecommitSignBytes(vt, o.w.fx.SignatureScheme)
+	}
+	if err != nil {
+		return
+	}
+	pub := o.w.fx.PrivVals[nd.idx].Val.PubKey
+	o.mu.Lock()
+	defer o.mu.Unlock()
+	if !bytes.Equal(want, content) || !pub.Verify(content, sig) {
+		o.violate("C10", "recorded-vote-handed-over-unverifiable/"+kind, "%s (restarted) hands its mirror a %s for %d/%d target %x whose sign content is not that vote's sign bytes or whose signature does not verify: the vote it had persisted before the stop is not present again", nd.ident(), kind, h, r, trunc(target))
 	}
 }
 
@@ -681,9 +726,11 @@ func (o *vzOracles) onSMAction(nd *vzNode, a tmeil.StateMachineRoundAction) {
 	}
 	if len(a.Prevote.Sig) > 0 && len(a.Prevote.SignContent) > 0 {
 		o.signatureLeft(nd, "prevote", e[0], uint32(e[1]), string(a.Prevote.SignContent))
+		o.checkOwnVote(nd, "prevote", e[0], uint32(e[1]), a.Prevote.TargetHash, a.Prevote.SignContent, a.Prevote.Sig)
 	}
 	if len(a.Precommit.Sig) > 0 && len(a.Precommit.SignContent) > 0 {
 		o.signatureLeft(nd, "precommit", e[0], uint32(e[1]), string(a.Precommit.SignContent))
+		o.checkOwnVote(nd, "precommit", e[0], uint32(e[1]), a.Precommit.TargetHash, a.Precommit.SignContent, a.Precommit.Sig)
 	}
 }
 
